@@ -39,9 +39,9 @@ type op struct {
 type procCase struct{ Ops []op }
 
 var offsets = map[string]time.Duration{"past": -time.Second, "now": 0, "+300us": 300 * time.Microsecond, "+499us": 499 * time.Microsecond,
-	"+500us": 500 * time.Microsecond, "+1ms": time.Millisecond, "+10ms": 10 * time.Millisecond, "+1s": time.Second, "+5s": 5 * time.Second}
-var offsetNames = []string{"past", "now", "+300us", "+499us", "+500us", "+1ms", "+10ms", "+1s", "+5s"}
-var advNames = []string{"next", "next", "next-1ms", "next-400us", "next+1us", "100us", "1ms", "1s", "10s"}
+	"+500us": 500 * time.Microsecond, "+1ms": time.Millisecond, "+10ms": 10 * time.Millisecond, "+1s": time.Second, "+5s": 5 * time.Second, "+90m": 90 * time.Minute, "+3h": 3 * time.Hour}
+var offsetNames = []string{"past", "now", "+300us", "+499us", "+500us", "+1ms", "+10ms", "+1s", "+5s", "+90m", "+3h"}
+var advNames = []string{"next", "next", "next-1ms", "next-400us", "next+1us", "100us", "1ms", "1s", "10s", "1h", "45m"}
 var points = []string{"loop.empty", "loop.empty", "loop.peeked", "loop.beforeTimer", "loop.timerFired", "execute.popped"}
 
 func opStr(o op) string {
@@ -307,6 +307,10 @@ func runProc(t *testing.T, c procCase) (out outcome, err error) {
 					d = time.Second
 				case "10s":
 					d = 10 * time.Second
+				case "1h":
+					d = time.Hour
+				case "45m":
+					d = 45 * time.Minute
 				default:
 					if !ok {
 						d = time.Millisecond
@@ -467,12 +471,12 @@ func runProc(t *testing.T, c procCase) (out outcome, err error) {
 			return
 		}
 		if !closeIssued {
-			time.Sleep(time.Hour)
+			time.Sleep(5 * time.Hour)
 			synctest.Wait()
 			k.mu.Lock()
 			k.step = len(c.Ops) + 2
 			k.mu.Unlock()
-			if !judge("final advance of 1h") {
+			if !judge("final advance of 5h") {
 				return
 			}
 			if len(live) != 0 {
